@@ -816,6 +816,8 @@ func (g *plGen) anyOf(xs []int) int {
 // a signal that is already in the message — adjacent before / after (legal), overlapping its
 // first or last bit, the same start, strictly inside it, strictly ENCLOSING it — so that every
 // shape of intersection occurs often, not only by chance.
+var plDebug = false
+
 func (g *plGen) startNear(m int, sg acmelib.Signal, capBits int) int {
 	msg := g.ex.msgs[m]
 	if msg == nil || sg == nil || len(msg.Signals()) == 0 || g.r.Intn(2) == 0 {
@@ -839,6 +841,9 @@ func (g *plGen) startNear(m int, sg acmelib.Signal, capBits int) int {
 	case 6, 7:
 		// encloses: starts before and ends after (when the new signal is wide enough)
 		if n > t.GetSize()+1 {
+			if plDebug {
+				println(sprintf("ENCLOSE ts=%d te=%d n=%d sigs=%d\n", ts, te, n, len(msg.Signals())))
+			}
 			return ts - 1 - g.r.Intn(n-t.GetSize()-1)
 		}
 		return ts - 1
@@ -1016,7 +1021,18 @@ func (g *plGen) step() {
 			s := g.anyOf(g.sigs)
 			sg := g.ex.sigs[s]
 			if sg != nil && (sg.ParentMessage() != nil || sg.ParentMultiplexerSignal() != nil) {
-				return
+				// the picked signal is in use: make a fresh one (unique name) so that populated
+				// messages keep receiving insertions
+				if len(g.types) == 0 || r.Intn(3) == 0 {
+					return
+				}
+				s = g.fresh()
+				if g.emit(sprintf("pl sig.std %d n%d %d", s, s, g.anyOf(g.types))) != "ok" {
+					return
+				}
+				g.sigs = append(g.sigs, s)
+				g.skind[s] = "std"
+				sg = g.ex.sigs[s]
 			}
 			if g.skind[s] == "enum" {
 				if es, ok := sg.(*acmelib.EnumSignal); ok {
